@@ -362,7 +362,24 @@ def check(run: Run) -> None:
                 for y in ast.walk(c):
                     bad = (isinstance(y, ast.Compare) and len(y.ops) == 1 and isinstance(y.ops[0], (ast.Is, ast.IsNot, ast.Eq, ast.NotEq)) and isinstance(y.left, ast.Name) and y.left.id in holds and isinstance(y.comparators[0], ast.Constant) and y.comparators[0].value is None) or (y is c and isinstance(y, ast.Name) and y.id in holds) or (isinstance(y, ast.UnaryOp) and isinstance(y.op, ast.Not) and isinstance(y.operand, ast.Name) and y.operand.id in holds)
                     if bad:
-                        tests.append(c)
+                        # a decision about a KEY: what the test controls puts the held value under a key / into a sequence
+                        # (`d[k] = v`, `{k: v}`, `.append(..v..)`, the element of a comprehension). A test of a whole rendering
+                        # (`if serialized is not None: return result(serialized)`) keeps or drops no key.
+                        nm = next((z.id for z in ast.walk(y) if isinstance(z, ast.Name) and z.id in holds), None)
+                        region = [x.body] if isinstance(x, ast.IfExp) else (list(x.body) if isinstance(x, ast.If) else [getattr(x, "_parent", x)])
+                        keyed = False
+                        for r in region:
+                            for z in ast.walk(r):
+                                if isinstance(z, ast.Assign) and any(isinstance(t, ast.Subscript) for t in z.targets) and any(isinstance(w, ast.Name) and w.id == nm for w in ast.walk(z.value)):
+                                    keyed = True
+                                if isinstance(z, (ast.Dict, ast.DictComp, ast.ListComp, ast.GeneratorExp)) and any(isinstance(w, ast.Name) and w.id == nm for w in ast.walk(z)):
+                                    keyed = True
+                                if isinstance(z, ast.Call) and isinstance(z.func, ast.Attribute) and z.func.attr in ("append", "extend", "update", "setdefault") and any(isinstance(w, ast.Name) and w.id == nm for a_ in z.args for w in ast.walk(a_)):
+                                    keyed = True
+                        if isinstance(x, ast.comprehension):
+                            keyed = True
+                        if keyed:
+                            tests.append(c)
         n8 += 1
         run.instance("R14.8", fi.module.loc(fi.node), f"{fi.qualname}: {len(holds)} local(s) hold converted values; none is tested for None / truthiness", ok=not tests, nontrivial=bool(holds))
         for c in tests:
